@@ -7,7 +7,8 @@
 (* Bytes are identified by their position in the stream; a header of entry e is the only     *)
 (* thing that decodes to e (it carries the path), payload bytes may have any value incl. LF. *)
 (* One action per loop turn / branch of the Go code:                                         *)
-(*   ScanEntry        checkPathReadable appends one sourceFile                               *)
+(*   ScanEntry        checkPathReadable appends one sourceFile (it holds no directory open   *)
+(*                    once it has returned: observed by ArchiveTrace!TScan)                  *)
 (*   NewReader        newArchiveReader: announced size                                       *)
 (*   RdBegin(n)       Read(p), len(p) = n, entered                                           *)
 (*   RdAdvance        src == nil, idx < len(files): next entry, close previous file, open    *)
